@@ -3,6 +3,9 @@ package hashring
 import (
 	"encoding/json"
 	"fmt"
+	"os"
+	"os/exec"
+	"path/filepath"
 	"sort"
 	"strings"
 	"sync"
@@ -109,9 +112,29 @@ func TestC21(t *testing.T) {
 			w.kill()
 		}
 	}()
+	// Thorough tier: the concurrent scenarios run in a worker built with the race detector (only
+	// the worker: the sequential cases gain nothing from -race and would take ten times longer).
+	// Race reports go to a file and are counted into the trace line (field races, informational:
+	// the verdict comes from the observed shards only).
+	workerBin, raceLog := os.Args[0], (*os.File)(nil)
+	if vt.Thorough() && vt.Replay(t) == nil {
+		workerBin, raceLog = buildRaceWorker(t)
+		defer raceLog.Close()
+	}
 	vt.Run(t, genAll, nil, func(c vt.Case) (ev vt.Event) {
 		if vt.Str(c["kind"]) == "conc" {
-			return runC21Conc(t, &w, c)
+			if w == nil {
+				if raceLog != nil {
+					w = startWorkerBin(t, workerBin, raceLog)
+				} else {
+					w = startWorkerBin(t, workerBin, nil)
+				}
+			}
+			before := countRaces(raceLog)
+			ev = runC21Conc(t, &w, c)
+			ev["races"] = countRaces(raceLog) - before
+			ev["race_build"] = raceLog != nil
+			return ev
 		}
 		guarded(t, "C21 case", func() { ev = runC21(c) })
 		return ev
@@ -130,7 +153,7 @@ func TestC21(t *testing.T) {
 func runC21Conc(t *testing.T, wp **hrWorker, c vt.Case) vt.Event {
 	for attempt := 0; ; attempt++ {
 		if *wp == nil {
-			*wp = startWorker(t)
+			*wp = startWorker(t) // after a worker died: plain binary
 		}
 		w := *wp
 		b, _ := json.Marshal(c)
@@ -405,4 +428,34 @@ func runC21(c vt.Case) vt.Event {
 	}
 	ev["tn"] = tn
 	return ev
+}
+
+// buildRaceWorker compiles this test package with -race into the scratch directory.
+func buildRaceWorker(t *testing.T) (string, *os.File) {
+	dir := os.Getenv("VERIF_SCRATCH")
+	if dir == "" {
+		dir = t.TempDir()
+	}
+	bin := filepath.Join(dir, "hashring.race.test")
+	cmd := exec.Command("go", "test", "-c", "-race", "-tags", "slicelabels,verif", "-vet=off", "-o", bin, ".")
+	cmd.Env = append(os.Environ(), "GOFLAGS=-mod=mod", "GOPROXY=off")
+	if out, err := cmd.CombinedOutput(); err != nil {
+		t.Fatalf("C21: building the race-instrumented worker failed: %v\n%s", err, out)
+	}
+	f, err := os.Create(filepath.Join(dir, "c21-worker.stderr"))
+	if err != nil {
+		t.Fatalf("C21: %v", err)
+	}
+	return bin, f
+}
+
+func countRaces(f *os.File) int {
+	if f == nil {
+		return 0
+	}
+	b, err := os.ReadFile(f.Name())
+	if err != nil {
+		return 0
+	}
+	return strings.Count(string(b), "WARNING: DATA RACE")
 }
